@@ -464,10 +464,47 @@ pub fn plan_c12(thorough: bool) -> Plan {
             cases.push(case(seed, uni.clone(), &cfg, "noproof", ops, d, true));
         }
     }
+    // deferred non-blocking commits: a session is alive on the calling thread, the non-blocking
+    // commit must hand the changeset back unchanged; after the session ends it is committed; the
+    // rollback history must be exactly that of one commit
+    {
+        let mut cfg = rb_cfg(3, 0);
+        cfg.buckets = 64;
+        let b0 = vec![w(0, 9), del(1)];
+        let b1 = vec![w(3, 1333)];
+        for ndefer in [1usize, 2, 3] {
+            for flavour in ["session", "overlay"] {
+                for finish in ["nb", "blocking"] {
+                    let mut ops = vec![c(vec![w(0, 1), w(1, 2)]), c(b1.clone())];
+                    if flavour == "session" {
+                        ops.push(json!({"prep": {"id": 0, "b": b0}}));
+                    } else {
+                        ops.push(json!({"ov": {"id": 0, "on": [], "b": b0}}));
+                    }
+                    for _ in 0..ndefer {
+                        ops.push(json!({"hold": 0}));
+                        ops.push(if flavour == "session" { json!({"fcn": 0}) } else { json!({"ovcn": 0}) });
+                        ops.push(json!({"release": 0}));
+                    }
+                    ops.push(match (flavour, finish) {
+                        ("session", "nb") => json!({"fcn": 0}),
+                        ("session", _) => json!({"fc": 0}),
+                        (_, "nb") => json!({"ovcn": 0}),
+                        _ => json!({"ovc": 0}),
+                    });
+                    ops.push(json!({"rb": 1}));
+                    ops.push(json!({"rb": 1}));
+                    cases.push(case("empty", vec!["U4"], &cfg, "noproof", ops, 4, true));
+                }
+            }
+        }
+        // a direct non-blocking commit while a session is alive is simply handed back
+        cases.push(case("empty", vec!["U4"], &cfg, "noproof", vec![c(vec![w(0, 1)]), json!({"hold": 0}), json!({"cn": [w(1, 1)]}), json!({"release": 0}), json!({"rb": 1})], 3, true));
+    }
     sort_by_bound(&mut cases);
     let mut p = Plan::new(
         cases,
-        "histx: every event sequence of length ≤L over {prepare a changeset (finished session) on the current state (2 batches, ≤3 prepared), commit prepared changeset i (blocking / non-blocking), create ≤2 overlays, commit / drop an overlay (blocking / non-blocking), direct commit, rollback(1|2)} from a leaf seed and a 20-key merkle cluster, rollback enabled; oracle: an attempt is accepted iff its base equals the current state (overlay: and its parent was the last commit), a rejected attempt returns an error, does not poison, and values, root, sync_seqn and what every later rollback restores are those of the model in which the attempt never happened; final reopen.",
+        "histx: every event sequence of length ≤L over {prepare a changeset (finished session) on the current state (2 batches, ≤3 prepared), commit prepared changeset i (blocking / non-blocking), create ≤2 overlays, commit / drop an overlay (blocking / non-blocking), direct commit, rollback(1|2)} from a leaf seed and a 20-key merkle cluster, rollback enabled; plus deferred non-blocking commits (1–3 attempts of a prepared session / overlay while a session is alive on the calling thread must each hand the changeset back and change nothing; it is then committed and rolled back); oracle: an attempt is accepted iff its base equals the current state (overlay: and its parent was the last commit), a rejected attempt returns an error, does not poison, and values, root, sync_seqn and what every later rollback restores are those of the model in which the attempt never happened; final reopen.",
     );
     p.budget_s = if thorough { 1700 } else { 45 };
     p
